@@ -184,6 +184,17 @@ fn enum_large(tier: Tier, f: &mut dyn FnMut(SeqCase) -> bool) {
         c.mode = 1;
     }
     cases.push(c);
+    // LCS with one side beyond 65 536 items and a tiny other side (the table stays small: only the
+    // product is bounded, not each dimension)
+    for flip in [false, true] {
+        let mut long = vec![2u32];
+        long.extend(std::iter::repeat(9).take(65_600));
+        long.push(3);
+        let short = vec![1u32, 2, 3, 4];
+        let mut c = if flip { SeqCase::full(2, short, long) } else { SeqCase::full(2, long, short) };
+        c.mode = 1;
+        cases.push(c);
+    }
     for c in cases {
         if !f(c) {
             return;
@@ -213,7 +224,7 @@ impl Prop for C03 {
             Stage {
                 name: "large",
                 kind: StageKind::Enumerate {
-                    scope: "fixed large cases: blocks of 4097 and 9000 identical / period-2 items between differing ends (Myers), 6000 distinct near-identical items, LCS via the Algorithm dispatch on 1063 x 1053 items (1.1 M table cells) with crossing unique items".into(),
+                    scope: "fixed large cases: blocks of 4097 and 9000 identical / period-2 items between differing ends (Myers), 6000 distinct near-identical items, LCS via the Algorithm dispatch on 1063 x 1053 items (1.1 M table cells) with crossing unique items, LCS on 65 602 x 4 and 4 x 65 602 items".into(),
                     exhaustive: true,
                     gen: enum_large,
                 },
